@@ -174,7 +174,7 @@ class AxisTyper:
         # a name bound at a fixed position of an Affine unpack: (a, b, c, d, e, f) = (x-scale, _, x-off, _, y-scale, y-off)
         if len(defs) == 1 and isinstance(defs[0], ast.Assign) and len(defs[0].targets) == 1 and isinstance(defs[0].targets[0], (ast.Tuple, ast.List)) and len(defs[0].targets[0].elts) >= 6:
             val = defs[0].value
-            if _looks_affine(val, self.fi) or (isinstance(val, ast.Name) and val.id in ("A", "ST")):
+            if _looks_affine(val, self.fi):
                 for i, e in enumerate(defs[0].targets[0].elts[:6]):
                     if isinstance(e, ast.Name) and e.id == name:
                         t = {0: X, 2: X, 4: Y, 5: Y}.get(i)
@@ -636,6 +636,8 @@ def _affine_row(n: ast.BinOp, ty: "AxisTyper") -> Optional[Tuple[bool, str]]:
 def _looks_affine(val: ast.AST, fi: FuncInfo) -> bool:
     s = short(val)
     if "affine" in s.lower() or "transform" in s.lower():
+        return True
+    if isinstance(val, ast.Attribute) and val.attr in ("A", "A_", "ST", "_A"):
         return True
     if isinstance(val, ast.Name):
         if val.id in ("A", "A_", "ST", "_A"):
